@@ -2,7 +2,8 @@
 # tryseed.sh <dir-with-patch.diff+demo_test.go> <name> <property>...
 # Confirms a seeded change (suite passes with it, demo fails with it and passes
 # without it) in a scratch worktree, then runs the named checks against that
-# worktree (VERIF_REPO). Leaves nothing behind.
+# worktree (VERIF_REPO). Leaves nothing behind. SKIP_CONFIRM=1 skips the
+# confirmation (the patch must still apply); VERIF_BUDGET_S caps each check.
 set -u
 export GOFLAGS=-mod=mod GOPROXY=off GOSUMDB=off
 src=$1; name=$2; shift 2
@@ -13,14 +14,18 @@ git -C /repo worktree add -q --detach $wt HEAD || exit 2
 cd $wt
 race=""
 grep -q -- "-race" $src/demo_test.go && race="-race"
+if [ -z "${SKIP_CONFIRM:-}" ]; then
 cp $src/demo_test.go $wt/zz_demo_test.go
 if go test $race -run 'TestDemo' -count=1 . >/tmp/ev-$name.base.log 2>&1; then echo "demo without change: PASS (ok)"; else echo "demo without change: FAIL (bad seed)"; tail -5 /tmp/ev-$name.base.log; fi
 rm -f $wt/zz_demo_test.go
+fi
 if ! git apply $src/patch.diff; then echo "patch does not apply"; cd /; git -C /repo worktree remove --force $wt; exit 2; fi
+if [ -z "${SKIP_CONFIRM:-}" ]; then
 if go test -count=1 ./... >/tmp/ev-$name.suite.log 2>&1; then echo "suite with change: PASS (ok)"; else echo "suite with change: FAIL (bad seed)"; tail -5 /tmp/ev-$name.suite.log; fi
 cp $src/demo_test.go $wt/zz_demo_test.go
 if go test $race -run 'TestDemo' -count=1 . >/tmp/ev-$name.demo.log 2>&1; then echo "demo with change: PASS (bad seed)"; else echo "demo with change: FAIL (ok)"; fi
 rm -f $wt/zz_demo_test.go
+fi
 cd $H
 for p in "$@"; do
   out=$(VERIF_REPO=$wt timeout 900 ./check $p ${TIER:-quick} 2>&1); code=$?
